@@ -25,6 +25,10 @@ type cliCase struct {
 	Fastq  bool   // input written as FASTQ (reads without qualities get a constant one)
 	Mode   string // "u": -u file; "keep": --keep-errors; "": flagged records are dropped
 	MaxCPU int    `json:",omitempty"`
+	// how the sheet reaches the command: "" a file named by -t; "stdin": -t /dev/stdin, the sheet is
+	// written to the standard input of the command (a pipe) in SheetPieces pieces
+	SheetVia    string `json:",omitempty"`
+	SheetPieces int    `json:",omitempty"`
 }
 
 func (c cliCase) input() []byte {
@@ -140,6 +144,14 @@ func checkCLI(c cliCase) error {
 	if os.WriteFile(sheetFile, []byte(c.Sheet.Text()), 0o644) != nil || os.WriteFile(inFile, c.input(), 0o644) != nil {
 		return nil
 	}
+	opt := run.Opt{Timeout: 120 * time.Second}
+	if c.SheetVia == "stdin" {
+		sheetFile = "/dev/stdin"
+		opt.Stdin = []byte(c.Sheet.Text())
+		if c.SheetPieces > 1 {
+			opt.StdinPieces, opt.StdinPause = c.SheetPieces, 3*time.Millisecond
+		}
+	}
 	args := []string{"-t", sheetFile, "--no-progressbar"}
 	switch c.Mode {
 	case "u":
@@ -157,14 +169,14 @@ func checkCLI(c cliCase) error {
 		args = append(args, "--max-cpu", strconv.Itoa(c.MaxCPU))
 	}
 	args = append(args, inFile)
-	res := run.Cmd(run.Opt{Timeout: 120 * time.Second}, "obimultiplex", args...)
+	res := run.Cmd(opt, "obimultiplex", args...)
 	if res.Inconclusive() {
 		evid.Class("timeout_inconclusive", 1)
 		return nil
 	}
 	what := fmt.Sprintf("obimultiplex %s", strings.Join(args, " "))
 	ctx := func() string {
-		return fmt.Sprintf("\n--- sheet ---\n%s--- reads ---\n%s", c.Sheet.Text(), c.input())
+		return fmt.Sprintf("\n--- sheet ---\n%s--- reads ---\n%s", c.Sheet.show(), c.input())
 	}
 	if res.Exit != 0 {
 		return fmt.Errorf("%s exited with status %d: %s%s", what, res.Exit, tail(res.Stderr), ctx())
